@@ -120,6 +120,41 @@ pub fn stress(path: &str) {
             bad
         }));
     }
+    // phase 0b: COLD trees. A tree built a moment ago (never evaluated) is shared by all threads, which evaluate it at
+    // once; the reference comes from the tree built and evaluated sequentially at the start.
+    {
+        let picks: Vec<usize> = (0..trees.len()).filter(|i| trees[*i].2.len() < 400).collect();
+        let trials = 400usize;
+        let fresh: Vec<(usize, Arc<Node<DefaultNumericTypes>>)> = (0..trials)
+            .map(|r| {
+                let i = picks[(r * 37) % picks.len()];
+                (i, Arc::new(build_operator_tree::<DefaultNumericTypes>(&trees[i].2).unwrap()))
+            })
+            .collect();
+        let fresh = Arc::new(fresh);
+        let barrier = Arc::new(std::sync::Barrier::new(threads));
+        let mut handles = vec![];
+        for _t in 0..threads {
+            let (trees, fresh, sequential, barrier, ctx) = (trees.clone(), fresh.clone(), sequential.clone(), barrier.clone(), ctx.clone());
+            handles.push(std::thread::spawn(move || {
+                let mut bad = vec![];
+                for (i, n) in fresh.iter() {
+                    barrier.wait();
+                    let got = crate::canon::result_text(&n.eval_with_context(&*ctx));
+                    if got != sequential[*i] {
+                        bad.push(format!("{}\t{}\t{} (first evaluation of a tree shared by all threads)", trees[*i].0, sequential[*i], got));
+                    }
+                }
+                bad
+            }));
+        }
+        for h in handles {
+            for b in h.join().unwrap().into_iter().take(3) {
+                println!("MISMATCH\t{}", b);
+                nbad0 += 1;
+            }
+        }
+    }
     let mut nbad = nbad0;
     for h in handles {
         for b in h.join().unwrap() {
